@@ -1,0 +1,29 @@
+//go:build verif
+
+// Verification hooks (build tag "verif" only; add-only; nothing here is compiled into normal builds).
+package multinode
+
+import (
+	"context"
+
+	eth2client "github.com/attestantio/go-eth2-client"
+)
+
+// VerifC16HandleSyncCommitteeMessagesError exposes the classification of a node's error for a
+// sync committee messages submission.  The classification normally runs in a goroutine of its
+// own, where a panic cannot be recovered by the caller.
+func (s *Service) VerifC16HandleSyncCommitteeMessagesError(ctx context.Context,
+	submitter eth2client.SyncCommitteeMessagesSubmitter,
+	err error,
+) error {
+	return s.handleSubmitSyncCommitteeMessagesError(ctx, submitter, err)
+}
+
+// VerifC16HandleSyncCommitteeContributionsError exposes the classification of a node's error
+// for a sync committee contributions submission.
+func (s *Service) VerifC16HandleSyncCommitteeContributionsError(ctx context.Context,
+	submitter eth2client.SyncCommitteeContributionsSubmitter,
+	err error,
+) error {
+	return s.handleSubmitSyncCommitteeContributionsError(ctx, submitter, err)
+}
